@@ -80,8 +80,9 @@ def run_case(case):
         atoms = Atoms(numbers=atoms.get_atomic_numbers(), positions=atoms.get_positions())     # no cell at all
         meta["cell_mode"] = "no_cell"; meta["pbc"] = "FFF"
     kw = {}
-    if rng.random() < 0.4:
-        kw["cluster_threshold"] = float(rng.uniform(0.2, 1.2))
+    if rng.random() < 0.5:
+        # below, around and above the default of 3.5 (distance minus radii)
+        kw["cluster_threshold"] = float([rng.uniform(0.2, 1.2), rng.uniform(1.2, 3.5), rng.uniform(3.5, 7.0)][int(rng.integers(3))])
     if rng.random() < 0.3:
         kw["min_coverage"] = float(rng.uniform(0.3, 1.0))
     if rng.random() < 0.3:
